@@ -80,6 +80,7 @@ def kinds():
               if v is not shapes.UNSET})), True),
       'list2': K('list2', 2, False, list),
       'tuple2': K('tuple2', 2, False, tuple),
+      'tuple1': K('tuple1', 1, False, tuple),
       'dict2': K('dict2', 2, False, lambda v: {'a': v[0], (1, 'k'): v[1]}),
   }
 
@@ -88,16 +89,20 @@ FULL = ['cfg', 'cls', 'pa', 'pb', 'named_nodes', 'named_fixture', 'ann', 'annb',
         'annn', 'inner', 'par', 'parf', 'list2', 'tuple2', 'dict2']
 SMALL = ['cfg', 'pa', 'par', 'list2']
 ROOTS = [k for k in FULL if k not in ('list2', 'tuple2', 'dict2')]
-LEAVES = ['L1', N.Color.RED, N.Outer.Mode.TRAIN, N.Base, N.node_b]
+SHARED_LIST = ['m']     # a mutable leaf: the same object wherever it is used
+LEAVES = ['L1', SHARED_LIST, N.Color.RED, N.Outer.Mode.TRAIN, N.Base,
+          N.node_b]
 NCHUNK = 48
 
 
 def bounds(tier):
   if tier == 'quick':
-    return dict(families=[[FULL, 2, 1], [['cfg', 'list2', 'dict2'], 2, 5],
-                          [['cfg', 'pa', 'list2'], 3, 1]],
-                complexities=[None, 0, 2], histories=[False, True])
-  return dict(families=[[FULL, 2, 2], [['cfg', 'list2', 'dict2'], 2, 5],
+    return dict(families=[[FULL, 2, 1], [["cfg", "list2", "dict2"], 2, 6],
+                          [['cfg', 'pa', 'list2'], 3, 1],
+                          [['cfg', 'tuple1'], 4, 2, 'light']],
+                complexities=[None, 1], histories=[False, True])
+  return dict(families=[[FULL, 2, 2], [['cfg', 'list2', 'dict2'], 2, 6],
+                        [['cfg', 'tuple1'], 4, 2, 'light'],
                         [SMALL + ['parf', 'dict2'], 3, 1]],
               complexities=[None, 0, 1, 2, 3], histories=[False, True])
 
@@ -109,12 +114,14 @@ def units(tier, seed):
 def all_cases(b):
   kk = kinds()
   seen = set()
-  for menu, n, nl in b['families']:
+  for fam in b['families']:
+    menu, n, nl = fam[:3]
+    profile = fam[3] if len(fam) > 3 else 'full'
     for s in shapes.all_shapes([kk[m] for m in menu], n, nl,
                                root_kinds=ROOTS):
       if s not in seen:
         seen.add(s)
-        yield s
+        yield s, profile
 
 
 _KK = None
@@ -227,7 +234,7 @@ def check_one(shape, tagged, gen, subidx, complexity, hist, res):
 
 
 def run_shapes(k, b, res):
-  for idx, shape in enumerate(all_cases(b)):
+  for idx, (shape, profile) in enumerate(all_cases(b)):
     if idx % NCHUNK != k:
       continue
     objs = make(shape)
@@ -238,11 +245,12 @@ def run_shapes(k, b, res):
     res.states += 1
     if len(shape) > 1:
       res.nontrivial += 1
-    for tagged in (False, True, 'two'):
+    light = profile == 'light'
+    for tagged in ((False,) if light else (False, True, 'two')):
       for gen in GENERATORS:
-        for subidx in subsets:
-          for complexity in b['complexities']:
-            for hist in b['histories']:
+        for subidx in ([()] if light else subsets):
+          for complexity in ([None, 0] if light else b['complexities']):
+            for hist in ([False] if light else b['histories']):
               if hist and (complexity is not None or subidx):
                 continue   # history is orthogonal: crossed with defaults only
               if tagged == 'two' and (complexity is not None or subidx):
